@@ -41,6 +41,11 @@ func runC11(e *Env) {
 	if e.want("C11.R7") {
 		c11OwnMID(e)
 	}
+	r.Rule("C11.R8", "flows+paths", "a continuation is taken out of the table when it is dispatched (never two messages into one response slot); the stream buffer is advanced by exactly what was decoded", 4)
+	if e.want("C11.R8") {
+		c03OneShotAs(e, "C11.R8")
+		c07ConsumptionAs(e, "C11.R8")
+	}
 	if e.want("C11.R1") {
 		// the wait for the acknowledgement, wherever it lives (own function or inlined into the writer)
 		for _, aw := range udpAckWaits(e) {
